@@ -127,7 +127,7 @@ fn(SM + "get_seeds", params=dict(GS.params), returns=GS.returns,
    # the structure clauses of the interface contract in d20 are not needed here: nothing get_seeds may write (see `modifies`) is
    # read by them, so the caller keeps them by framing
    requires=[cl("tree", "tree != None and S_levels(tree) and S_deme(tree)")] + [cl("mechanism", "MechOk(self)")],
-   modifies=[("_centroid", "True"), ("_threshold", "True"), ("$list<ref:$Opaque>", "kind(o) == 7")],
+   modifies=[("_centroid", "True"), ("_threshold", "True"), ("$list<ref:$Opaque>", "kind(o) == 7"), ("individuals", "True")],
    ensures=SEEDS_POST + [
        cl("only_active_non_leaf_demes", "forall(lambda k: imp(0 <= k < len(result.keys()), result.keys()[k]._active), pat=result.keys()[k])",
           tags="C10"),
@@ -286,7 +286,12 @@ refine(SG + "NBC_Generator.__call__", SG + "SproutCandidatesGenerator.__call__",
                     "cluster@0": ["lemma('cluster_seeds_are_from_the_population', forall(lambda j: imp(0 <= j < len(_call_result), "
                                   "Member(_call_result[j], cur_pop(deme))), pat=_call_result[j]), 'C10')"]},
        loops={0: dict(index="a", modifies=[], local_frame=[("$dict", "o == candidates")], invariant=gen_inv("candidates")),
-              1: dict(index="b", modifies=[], local_frame=[("$dict", "o == candidates")], invariant=gen_inv("candidates", INNER))})
+              1: dict(index="b", modifies=[], local_frame=[("$dict", "o == candidates")], invariant=gen_inv("candidates", INNER),
+                      hints=[cl("h_one_entry_set", "forall(lambda k: imp(0 <= k < len(candidates.keys()), candidates.keys()[k] == deme or "
+                                "(k < at_head(len(candidates.keys())) and candidates.keys()[k] == at_head(candidates.keys()[k]) and "
+                                "candidates[candidates.keys()[k]] == at_head(candidates[candidates.keys()[k]]))), pat=candidates.keys()[k])"),
+                             cl("h_new_record", "imp(deme._active, deme in candidates and forall(lambda j: imp(0 <= j < len(candidates[deme].individuals), "
+                                "Member(candidates[deme].individuals[j], cur_pop(deme))), pat=candidates[deme].individuals[j]))")])})
 
 # "the deme's current best": a member of the current population that no member beats (for evaluated members of one direction)
 macro("IsCurrentBest", ["x", "d"], """
